@@ -156,9 +156,11 @@ fn eval_expr_impl(
             assign(shell, lvalue, expr_eval, depth)?
         }
         ast::ArithmeticExpr::UnaryAssignment(op, lvalue) => {
-            apply_unary_assignment_op(shell, lvalue, *op, depth)?
+            let lvalue = resolve_lvalue(shell, lvalue, depth)?;
+            apply_unary_assignment_op(shell, &lvalue, *op, depth)?
         }
         ast::ArithmeticExpr::BinaryAssignment(op, lvalue, operand) => {
+            let lvalue = resolve_lvalue(shell, lvalue, depth)?;
             let value = apply_binary_op(
                 shell,
                 *op,
@@ -166,11 +168,32 @@ fn eval_expr_impl(
                 operand,
                 depth,
             )?;
-            assign(shell, lvalue, value, depth)?
+            assign(shell, &lvalue, value, depth)?
         }
     };
 
     Ok(value)
+}
+
+/// Evaluates the subscript of an array-element target once, so that an operator that both reads
+/// and writes the element (`a[i++] += 1`, `a[i++]++`) applies the subscript's side effects once.
+fn resolve_lvalue(
+    shell: &mut Shell<impl extensions::ShellExtensions>,
+    lvalue: &ast::ArithmeticTarget,
+    depth: u32,
+) -> Result<ast::ArithmeticTarget, EvalError> {
+    match lvalue {
+        ast::ArithmeticTarget::ArrayElement(name, index_expr)
+            if !matches!(**index_expr, ast::ArithmeticExpr::Literal(_)) =>
+        {
+            let index = eval_expr_impl(index_expr, shell, depth)?;
+            Ok(ast::ArithmeticTarget::ArrayElement(
+                name.clone(),
+                Box::new(ast::ArithmeticExpr::Literal(index)),
+            ))
+        }
+        _ => Ok(lvalue.clone()),
+    }
 }
 
 fn get_var_value<'a>(
